@@ -100,7 +100,7 @@ pub fn check(rep: &Reporter) {
 				if fits {
 					class = "fits";
 					if got != want {
-						let rel = want.len() as i64 - l as i64;
+						let rel = (want.len() as i64 - l as i64).clamp(-4, 4);
 						rep.violation(
 							&format!("single:fitting-reply-changed:{tname}:{feat}:len=limit{rel:+}"),
 							&format!("L={l}: the unlimited reply has {} bytes (≤ L) but the limited server sent {:?}", want.len(), String::from_utf8_lossy(got)),
@@ -112,7 +112,7 @@ pub fn check(rep: &Reporter) {
 					let v: Value = serde_json::from_slice(got).unwrap_or(Value::Null);
 					let idv: Value = serde_json::from_str(IDS[ii]).unwrap();
 					if v["error"]["code"] != -32008 || v["id"] != idv {
-						let rel = want.len() as i64 - l as i64;
+						let rel = (want.len() as i64 - l as i64).clamp(-4, 4);
 						rep.violation(
 							&format!("single:oversized-not-replaced:{tname}:{feat}:len=limit{rel:+}"),
 							&format!("L={l}: the reply would have {} bytes (> L) but the server sent {:?}", want.len(), String::from_utf8_lossy(got)),
@@ -172,7 +172,7 @@ pub fn check(rep: &Reporter) {
 					let o = if tname == "http" { rt.block_on(srvref::http_roundtrip(&mut http, text.as_bytes())) } else { rt.block_on(srvref::ws_roundtrip(&ws, text.as_bytes())) };
 					let case = json!({"engine":"ENUM","part":"batch","limit": l, "transport": tname, "entries": k, "adjusted_entry": j, "array_len_minus_limit": total as i64 - l as i64, "request": text,
 						"replies": o.replies.iter().map(|r| String::from_utf8_lossy(r).to_string()).collect::<Vec<_>>()});
-					let rel = total as i64 - l as i64;
+					let rel = (total as i64 - l as i64).clamp(-4, 4);
 					if o.replies.len() != 1 {
 						rep.violation(&format!("batch:reply-count:{tname}"), &format!("L={l}: {} replies to a batch", o.replies.len()), case.clone());
 						continue;
